@@ -373,6 +373,9 @@ func driveCallerSchemas(c *driverCtx, prop string) error {
 	// random records of several fields
 	for i := 0; i < c.pick(150, 30000); i++ {
 		nf := 1 + c.rng.Intn(5)
+		if i%50 == 7 {
+			nf = 65 + c.rng.Intn(70) // more fields than a machine word has bits
+		}
 		fields := make([]csField, nf)
 		for j := range fields {
 			sp := specs[c.rng.Intn(len(specs))]
